@@ -350,3 +350,100 @@ def run(ctx, R):
     n += sqlshape.shape_rule(ctx, R, 'R12.6', [
         'placement.objects.consumer:_delete_consumer'])
     R.count('R12.6', n, 2)
+
+
+def r127(ctx, R):
+    """update_consumers: when are the consumer's attributes rewritten."""
+    prog = ctx.prog
+    f = prog.func('placement.handlers.util:update_consumers')
+    loops = [x for x in own_nodes(f.node) if isinstance(x, ast.For)
+             and src(x.iter) == f.params[0]]
+    if not R.ob('R12.7', 'update_consumers:loop', len(loops) == 1 and not [
+            x for x in own_nodes_of(loops[0]) if isinstance(
+                x, (ast.Continue, ast.Break))] if loops else False,
+            'every consumer passed in is examined', len(loops), func=f):
+        return
+    lp = loops[0]
+    c = src(lp.target)
+
+    def resolve(e):
+        if isinstance(e, ast.Name):
+            d = c05.single_def(f, e.id)
+            if d is not None:
+                return resolve(d.value)
+        return src(e)
+    ifs = [x for x in lp.body if isinstance(x, ast.If)]
+    pu = [x for x in ifs if any(
+        isinstance(n, ast.Assign) and any(
+            src(t) in ('%s.project' % c, '%s.user' % c) for t in n.targets)
+        for n in own_nodes_of(x))]
+    ok = False
+    why = '%d project/user blocks' % len(pu)
+    if len(pu) == 1:
+        t = pu[0].test
+        disj = t.values if isinstance(t, ast.BoolOp) and isinstance(
+            t.op, ast.Or) else [t]
+        pairs = set()
+        for d in disj:
+            if isinstance(d, ast.Compare) and isinstance(
+                    d.ops[0], ast.NotEq):
+                a = resolve(d.left.value) if isinstance(
+                    d.left, ast.Attribute) else src(d.left)
+                b = src(d.comparators[0])
+                pairs.add((src(d.left).rsplit('.', 1)[-1],
+                           a.rsplit('.', 1)[-1], b))
+        want = {('external_id', 'project', '%s.project.external_id' % c),
+                ('external_id', 'user', '%s.user.external_id' % c)}
+        sets = {src(t_): src(n.value) for n in own_nodes_of(pu[0])
+                if isinstance(n, ast.Assign) for t_ in n.targets}
+        upd = [x for x in own_nodes_of(pu[0]) if isinstance(x, ast.Call)
+               and src(x.func) == '%s.update' % c]
+        ok = pairs == want and len(disj) == 2 and len(upd) == 1 and \
+            '%s.project' % c in sets and '%s.user' % c in sets and \
+            not pu[0].orelse
+        why = 'condition %s; sets %s; update calls %d' % (
+            src(t)[:90], sorted(sets), len(upd))
+    R.ob('R12.7', 'update_consumers:project-or-user-differs', ok,
+         'project and user of an existing consumer are rewritten when the '
+         'request names a different project OR a different user', why,
+         func=f)
+    ty = [x for x in ifs if any(
+        isinstance(n, ast.Assign) and any(
+            src(t) == '%s.consumer_type_id' % c for t in n.targets)
+        for n in own_nodes_of(x))]
+    ok = False
+    why = '%d type blocks' % len(ty)
+    if len(ty) == 1:
+        t = ty[0].test
+        conj = t.values if isinstance(t, ast.BoolOp) and isinstance(
+            t.op, ast.And) else [t]
+        names = set()
+        neq = False
+        for d in conj:
+            if isinstance(d, ast.Name):
+                names.add(d.id)
+            if isinstance(d, ast.Compare) and isinstance(
+                    d.ops[0], ast.NotEq) and src(
+                        d.comparators[0]) == '%s.consumer_type_id' % c:
+                neq = True
+                names.add(src(d.left))
+        upd = [x for x in own_nodes_of(ty[0]) if isinstance(x, ast.Call)
+               and src(x.func) == '%s.update' % c]
+        ok = neq and len(names) == 1 and len(conj) <= 2 and len(upd) == 1
+        if ok:
+            d = c05.single_def(f, list(names)[0])
+            ok = d is not None and src(d.value).endswith(
+                '.consumer_type_id')
+        why = 'condition %s' % src(t)
+    R.ob('R12.7', 'update_consumers:type-differs', ok,
+         'the consumer type is rewritten when the request carries a type '
+         'that differs from the stored one', why, func=f)
+    R.count('R12.7', 1, 1)
+
+
+_run_c12 = run
+
+
+def run(ctx, R):
+    _run_c12(ctx, R)
+    r127(ctx, R)
